@@ -152,6 +152,10 @@ class C06(PropBase):
                     t = rng.choice(tw)
             v = rng.choice(vals)
             step = {"op": "marshal", "t": t, "v": copy.deepcopy(v), "mod": rng.choice(mods)}
+            if t["k"] == "ref" and lk[(t["m"], t["n"])]["decl"]["d"] == "typeddict" and isinstance(v, dict) and "$dict" in v and rng.random() < 0.4:
+                # the TypedDict value is a defaultdict (a lookup of an absent key would insert it): a member the value
+                # does not hold is not emitted, and the value is left as it was
+                step["v"] = {"$ddict": copy.deepcopy(v["$dict"])}
             if "stack" in sw and rng.random() < 0.2:
                 step["depth"] = rng.randint(1, 40)
             if "twin" in sw and rng.random() < 0.6:
